@@ -352,3 +352,65 @@ func (p *Prog) lookupPkg(name string, cf *ContractFile) *types.Package {
 	}
 	return nil
 }
+
+// RecursiveFuncs returns the repo functions that lie on a cycle of the static call graph (direct calls, closures
+// created, deferred and go'd functions). Contracts give partial correctness only; a cycle would need a termination
+// measure the contract language does not have, so it is reported instead of being silently accepted.
+func (p *Prog) RecursiveFuncs() []string {
+	edges := map[*ssa.Function][]*ssa.Function{}
+	var all []*ssa.Function
+	var visitFn func(fn *ssa.Function)
+	seen := map[*ssa.Function]bool{}
+	visitFn = func(fn *ssa.Function) {
+		if seen[fn] {
+			return
+		}
+		seen[fn] = true
+		all = append(all, fn)
+		for _, b := range fn.Blocks {
+			for _, ins := range b.Instrs {
+				if ci, ok := ins.(ssa.CallInstruction); ok {
+					if c := ci.Common().StaticCallee(); c != nil && c.Pkg != nil && p.IsRepoPkg(c.Pkg.Pkg.Path()) {
+						edges[fn] = append(edges[fn], c)
+					}
+				}
+				if mc, ok := ins.(*ssa.MakeClosure); ok {
+					if c, ok := mc.Fn.(*ssa.Function); ok {
+						edges[fn] = append(edges[fn], c)
+					}
+				}
+			}
+		}
+		for _, a := range fn.AnonFuncs {
+			visitFn(a)
+		}
+	}
+	for _, fn := range p.Funcs {
+		visitFn(fn)
+	}
+	// a function is recursive iff it can reach itself
+	var out []string
+	for _, f := range all {
+		stack := append([]*ssa.Function(nil), edges[f]...)
+		vis := map[*ssa.Function]bool{}
+		found := false
+		for len(stack) > 0 && !found {
+			g := stack[len(stack)-1]
+			stack = stack[:len(stack)-1]
+			if g == f {
+				found = true
+				break
+			}
+			if vis[g] {
+				continue
+			}
+			vis[g] = true
+			stack = append(stack, edges[g]...)
+		}
+		if found {
+			out = append(out, p.ShortName(f))
+		}
+	}
+	sort.Strings(out)
+	return out
+}
